@@ -57,12 +57,14 @@ recv_message = Fn(F, ["recv_message"], ret="r", extra_params="Tracked(k): Tracke
                ["C10", "C12", "C06", "C03"]),
         Clause("unix.recv/ensures.nothing_queued_nothing_consumed",
                "old(k).q[fd].len() == 0 ==> r is Err && final(k).q == old(k).q", ["C10", "C03"]),
+        Clause("unix.recv/ensures.at_most_one_first_packet_receive_in_the_callers_mode",
+               "final(k).rx_modes == old(k).rx_modes || final(k).rx_modes == old(k).rx_modes.push((fd, mode_code(blocking_mode)))", ["C10"]),
     ],
     loops={
         0: Loop(desugar_range_for=True, invariants=[
             Clause("unix.recv/loop0.invariant.split",
                    "index <= channel_length && cmsg.got == Some(p) && channel_length == p.fds.len() && p.fds.len() <= MAX_FDS_IN_CMSG\n"
-                   "&& k.q == k1.q && k.sock == k1.sock && k.peer == k1.peer && k.log == k1.log\n"
+                   "&& k.q == k1.q && k.sock == k1.sock && k.peer == k1.peer && k.log == k1.log && k.rx_modes == k1.rx_modes\n"
                    "&& opaque_fds(channels@) == socks(p.fds.subrange(0, index as int), k1.sock)\n"
                    "&& region_fds(shared_memory_regions@) == nonsocks(p.fds.subrange(0, index as int), k1.sock)", ["C04", "C05", "C13", "C18"])],
             decreases="channel_length - index", continue_hint=Hint("-", SPLIT_STEP, "unix.recv/loop0.invariant.split")),
@@ -76,7 +78,7 @@ recv_message = Fn(F, ["recv_message"], ret="r", extra_params="Tracked(k): Tracke
                    "&& (head_complete(k0, fd) ==> main_data_buffer@.len() + flat(k.q[ded]).len() == total_size)\n"
                    "&& main_data_buffer@ + flat(k.q[ded]) == p.data + flat(k0.q[ded])\n"
                    "&& k.q == k0.q.insert(fd, k0.q[fd].drop_first()).insert(ded, k.q[ded])\n"
-                   "&& k.sock == k0.sock", ["C01", "C02", "C12", "C13", "C18"])],
+                   "&& k.sock == k0.sock && k.rx_modes == k0.rx_modes.push((fd, mode_code(blocking_mode)))", ["C01", "C02", "C12", "C13", "C18"])],
             decreases="total_size - main_data_buffer@.len()"),
     },
     hints=[
@@ -147,13 +149,19 @@ recv = Fn(F, ["recv"], ret="r", extra_params="Tracked(k): Tracked<&mut K>",
         Clause("unix.recv.loop/ensures.would_block_only_when_nothing_deliverable_was_queued",
                "r matches Err(UnixError::Errno(c)) ==> ((c == libc::EAGAIN || c == libc::EWOULDBLOCK) ==> final(k).q[fd].len() == 0\n"
                "&& exists|n: nat| skipped(*old(k), old(k).q, fd, n, final(k).q))", ["C10", "C12", "C06", "C03"]),
+        Clause("unix.recv.loop/ensures.every_first_packet_receive_in_the_callers_mode",
+               "old(k).rx_modes.is_prefix_of(final(k).rx_modes)\n"
+               "&& (forall|i: int| old(k).rx_modes.len() <= i < final(k).rx_modes.len() ==> (#[trigger] final(k).rx_modes[i]) == (fd, mode_code(blocking_mode)))", ["C10"]),
         Clause("unix.recv.loop/ensures.nothing_queued_nothing_consumed",
                "old(k).q[fd].len() == 0 ==> r is Err && final(k).q == old(k).q", ["C10", "C03"]),
     ],
     loops={0: Loop(invariants=[
         Clause("unix.recv.loop/loop0.invariant.only_abandoned_emissions_skipped_so_far",
                "k.q.dom().contains(fd) && k.sock == k0.sock && heads_ok(k0, k.q, fd, k.q[fd].len())\n"
-               "&& skipped(k0, k0.q, fd, nskip, k.q) && (nskip > 0 ==> !head_complete(k0, fd)) && (nskip == 0 ==> k.q == k0.q)", ["C12", "C03"])],
+               "&& skipped(k0, k0.q, fd, nskip, k.q) && (nskip > 0 ==> !head_complete(k0, fd)) && (nskip == 0 ==> k.q == k0.q)", ["C12", "C03"]),
+        Clause("unix.recv.loop/loop0.invariant.every_receive_so_far_in_the_callers_mode",
+               "k0.rx_modes.is_prefix_of(k.rx_modes)\n"
+               "&& (forall|i: int| k0.rx_modes.len() <= i < k.rx_modes.len() ==> (#[trigger] k.rx_modes[i]) == (fd, mode_code(blocking_mode)))", ["C10"])],
         decreases="k.q[fd].len()")},
     hints=[
         Hint("body:start", "let ghost k0 = *k;\nlet ghost mut nskip: nat = 0;"),
